@@ -1,7 +1,8 @@
 """C04 - diffusion conserves every component and honours boundary conditions.
 
 Runtime monitors on executions of the real SinglePhaseModel / HomogenizationModel (kawin/diffusion), driven
-through the public GenericModel.solve.  Two documented seams are used, nothing in the repository is edited:
+through the public GenericModel.solve.  Two documented seams plus one instance-level recorder are used, nothing in
+the repository is edited:
 
   * step observer      model.addCouplingModel(obj): obj.updateCoupledModel(model) runs at the end of postProcess
                        of every accepted step -> the state (t, x) the user can see after the step;
@@ -25,8 +26,9 @@ Monitors
                  returned by the iterator) are the harness's own.  Sums are exact (math.fsum), so the residual is
                  only the rounding of kawin's own update  x + (-(J[i+1]-J[i])/dz)*dt : per node <= eps/2*|x| +
                  ~3 eps*|J|dt/dz <= ~4e-16, i.e. <= ~4e-16*N worst case over the mesh; the constant 1e-13*N is
-                 >= 250x that bound (measured worst: see worst_residuals in the evidence) and >= 1e4x below the
-                 smallest seeded effect (wrong-side flux ~1e-4..1e-2, per-call shift N*n*minComposition >= 1.6e-7).
+                 >= 250x that bound (measured worst over seeds 0,1,2,3,7: 1.3e-16*N, i.e. ~800x margin; see
+                 worst_residuals in the evidence) and >= 1e3x below the smallest seeded effect (clamp to n*min instead
+                 of min: >= 1e-8; wrong-side flux 1e-4..1e-2; per-call shift N*n*minComposition >= 1.6e-7).
   fixed_node     a node with a fixed-composition condition is bit-identical to its value after setup() after every
                  step of a call ('step'), and at the first step of call k+1 bit-identical to the end of call k
                  ('call boundary'; reference is re-based after a report so that one defect is reported once); after
@@ -83,8 +85,9 @@ MAX_INCONCLUSIVE_FRACTION = 0.0
 ASSUMPTIONS = ['the universally quantified statement is sampled: random configurations, 20-150 steps each',
                'cell width = node spacing (zR-zL)/(N-1); left flux positive into the mesh, right flux positive out of it '
                '(dx/dt = -(J[i+1]-J[i])/dz)',
-               'steps on which the integrator output left [min, 1-min] at a node are excluded from the conservation '
-               'identity (documented clamp)',
+               'a component whose integrator output left [min, 1-min] at a node on a step is excluded from the conservation '
+               'identity for that step (documented clamp), counted as clip step',
+               'homogenization runs are admissible only where some stable phase has mobility data at every node',
                '"keeps that composition" is read as: bit-identical to the node value after setup(), which lies within '
                'n_elements*minComposition of the requested value']
 
